@@ -5,7 +5,6 @@ CONSTANTS
   VMag = 6
   Mixed = FALSE
   Dump = TRUE
-INVARIANT ImplAgrees
 INVARIANT NoUB
 INVARIANT ImplAgreesOffHazards
 INVARIANT HazardsConfined
